@@ -165,6 +165,7 @@ int (*env_sc_fault_hook)(int sc);
 unsigned long env_sc_calls[ENV_NSC];
 int env_fail_next_evfd_errno;
 int (*env_eintr_hook)(const char *what, int fd);
+void (*env_after_eagain_hook)(const char *what, int fd);
 int env_pipe_size;
 int env_check_close = 1;
 
@@ -355,7 +356,15 @@ ssize_t ivw_splice(int fdin, loff_t *offin, int fdout, loff_t *offout, size_t le
 		return -1;
 	if (eintr("splice", fdin))
 		return -1;
-	return splice(fdin, offin, fdout, offout, len, flags);
+	{
+		ssize_t r = splice(fdin, offin, fdout, offout, len, flags);
+		if (r < 0 && errno == EAGAIN && env_after_eagain_hook) {
+			/* the world goes on between two system calls of one library call: the harness may let data arrive now */
+			env_after_eagain_hook("splice", fdin);
+			errno = EAGAIN;
+		}
+		return r;
+	}
 }
 
 static void shrink_pipe(int *fd)
@@ -575,6 +584,10 @@ int ivw_execvp(const char *file, char *const argv[])
 struct env_wait_ops env_wait_ops;
 unsigned long env_wait_count;
 
+/* ThreadSanitizer's epoll_wait interceptor (unlike its poll / read ones) does not record the kernel's stores into the
+ * caller's event array, so a result buffer shared between threads would go unnoticed: record them here */
+extern void __tsan_write_range(void *addr, unsigned long size) __attribute__((weak));
+
 int env_real_poll0(struct env_wait *w)
 {
 	int r;
@@ -584,6 +597,8 @@ int env_real_poll0(struct env_wait *w)
 		else
 			r = poll(w->pfds, w->nfds, 0);
 	} while (r < 0 && errno == EINTR);
+	if (w->is_epoll && r > 0 && __tsan_write_range)
+		__tsan_write_range(w->ev, (unsigned long)r * sizeof(struct epoll_event));
 	return r;
 }
 
